@@ -671,18 +671,25 @@ func (r *Renderer) renderText(w util.BufWriter, source []byte, node ast.Node, en
 				_, _ = w.WriteString("<br>\n")
 			}
 		} else if n.SoftLineBreak() {
+			// A soft line break is removed only if characters on both sides
+			// of it are known and the style says so.
+			lineBreak := true
 			if r.EastAsianLineBreaks != EastAsianLineBreaksNone && len(value) != 0 {
+				// The following character is the head of the next sibling,
+				// which may be nested in other inlines(i.e. emphasis).
 				sibling := node.NextSibling()
-				if sibling != nil && sibling.Kind() == ast.KindText {
+				for sibling != nil && sibling.Kind() != ast.KindText {
+					sibling = sibling.FirstChild()
+				}
+				if sibling != nil {
 					if siblingText := sibling.(*ast.Text).Value(source); len(siblingText) != 0 {
 						thisLastRune := util.ToRune(value, len(value)-1)
 						siblingFirstRune, _ := utf8.DecodeRune(siblingText)
-						if r.EastAsianLineBreaks.softLineBreak(thisLastRune, siblingFirstRune) {
-							_ = w.WriteByte('\n')
-						}
+						lineBreak = r.EastAsianLineBreaks.softLineBreak(thisLastRune, siblingFirstRune)
 					}
 				}
-			} else {
+			}
+			if lineBreak {
 				_ = w.WriteByte('\n')
 			}
 		}
